@@ -4,7 +4,8 @@
 From Coq Require Import String List NArith Arith Bool.
 Import ListNotations.
 Require Import Verif.Imports.Rules Verif.Imports.Collect Verif.Imports.CollectProps Verif.Imports.FlattenProps
-               Verif.Imports.TermProps Verif.Imports.Index Verif.Imports.IndexProps Verif.Imports.Current
+               Verif.Imports.TermProps Verif.Imports.Index Verif.Imports.IndexProps Verif.Imports.Extract Verif.Imports.ExtractProps
+               Verif.Imports.Current
                Verif.Gen.ImportRules.
 
 (* the source still has the shape the model was transliterated from (regenerated table) *)
@@ -92,3 +93,13 @@ Theorem C05_index_canonical :
   (forall s, index_of current_rules (index_of current_rules s) = index_of current_rules s).
 Proof. exact index_canonical_current. Qed.
 Print Assumptions C05_index_canonical.
+
+(* the pre-scan follows every import statement whatever the layout of the import section (blank, white-space
+   only and comment lines anywhere), and nothing else *)
+Theorem C05_extract_layout :
+  (forall a l b, is_layout l = true -> extract current_rules (a ++ l :: b) = extract current_rules (a ++ b)) /\
+  (forall sec body, Forall (fun l => is_import current_rules l = false) body ->
+      extract current_rules (sec ++ body) = filter (is_import current_rules) sec /\
+      (forall l, In l (extract current_rules (sec ++ body)) <-> In l sec /\ is_import current_rules l = true)).
+Proof. exact extract_layout_current. Qed.
+Print Assumptions C05_extract_layout.
